@@ -237,21 +237,50 @@ func C04(c *Ctx) {
 				}
 			}
 			c.R.Check(okAg, "C04-R3", "consider: matched against message or bindings", c.pos(tryCalls[0]), "pending message under message branching, current bindings otherwise", "the value the patterns are matched against is not (message under message branching | bindings otherwise)")
-			// missing message: return before the loop under consumer && pending == nil
+			// missing message: some return that cannot reach the branch loop holds (consumer, pending == nil),
+			// and the message reaches try only where it is known non-nil
 			okMissing := false
+			isPendingNil := func(f flow.Fact, wantNil bool) bool {
+				bo, isB := f.Cond.(*ssa.BinOp)
+				if !isB || !ssau.IsNilConst(bo.Y) {
+					return false
+				}
+				pr, isP := bo.X.(*ssa.Parameter)
+				if !isP || pr != ifaceParam(consider) {
+					return false
+				}
+				isNil := (bo.Op == token.EQL && f.True) || (bo.Op == token.NEQ && !f.True)
+				return isNil == wantNil
+			}
 			for _, b := range consider.Blocks {
-				iff, isIf := b.Instrs[len(b.Instrs)-1].(*ssa.If)
-				if !isIf {
+				if _, isRet := b.Instrs[len(b.Instrs)-1].(*ssa.Return); !isRet || flow.Reachable(b, tryCalls[0].Block(), nil) {
 					continue
 				}
-				bo, isB := iff.Cond.(*ssa.BinOp)
-				if !isB || bo.Op != token.EQL || !ssau.IsNilConst(bo.Y) {
-					continue
+				hasC, hasNil := false, false
+				for _, f := range flow.FactsAt(b) {
+					if f.Cond == ssa.Value(consumer) && f.True {
+						hasC = true
+					}
+					if isPendingNil(f, true) {
+						hasNil = true
+					}
 				}
-				if pr, isP := bo.X.(*ssa.Parameter); isP && pr == ifaceParam(consider) && flow.EdgeDominates(consumer.Block(), 0, b) {
-					s := b.Succs[0]
-					if _, isRet := s.Instrs[len(s.Instrs)-1].(*ssa.Return); isRet && !flow.Reachable(s, tryCalls[0].Block(), nil) {
-						okMissing = true
+				if hasC && hasNil {
+					okMissing = true
+				}
+			}
+			if p, ok := ag.(*ssa.Phi); ok && okMissing {
+				for i, e := range p.Edges {
+					if pr, isP := e.(*ssa.Parameter); isP && pr == ifaceParam(consider) {
+						nonNil := false
+						for _, f := range flow.EdgeFacts(p.Block().Preds[i], p.Block()) {
+							if isPendingNil(f, false) {
+								nonNil = true
+							}
+						}
+						if !nonNil {
+							okMissing = false
+						}
 					}
 				}
 			}
@@ -445,9 +474,19 @@ func C04(c *Ctx) {
 			// must be on the guard path and under Bs != nil
 			in := d.(ssa.Instruction)
 			nonnil := false
-			for _, f := range flow.FactsAt(in.Block()) {
+			facts := append(flow.FactsAt(in.Block()), flow.FactsAt(bsStores[0].Block())...)
+			for _, pe := range phiEdgesWithBlocks(resBs, bsStores[0].Block()) {
+				if pe.v == d {
+					facts = append(facts, flow.FactsAt(pe.b)...)
+				}
+			}
+			for _, f := range facts {
 				if bo, isB := f.Cond.(*ssa.BinOp); isB && ssau.IsNilConst(bo.Y) {
-					if b2, is2 := isFieldLoad(bo.X, "core", "Execution", "Bs"); is2 && b2 == guardExe && ((bo.Op == token.NEQ && f.True) || (bo.Op == token.EQL && !f.True)) {
+					nn := (bo.Op == token.NEQ && f.True) || (bo.Op == token.EQL && !f.True)
+					if b2, is2 := isFieldLoad(bo.X, "core", "Execution", "Bs"); is2 && b2 == guardExe && nn {
+						nonnil = true
+					}
+					if bo.X == d && nn {
 						nonnil = true
 					}
 				}
